@@ -67,7 +67,12 @@ def history(rng, auth, method=None, calm=False):
             steps.append(['upstream', rng.choice([b'HTTP/1.1 200 OK\r\nContent-Length: 2\r\n\r\nok', b'HTTP/1.1 204 No Content\r\n\r\n',
                                                   b'HTTP/1.1 200 OK\r\nContent-Length: 5\r\n\r\nab'])])
         else:
-            steps.append(['client', b'raw-bytes-' + bytes([rng.choice(b'xyz')]), None])
+            # a later request arriving in two pieces (raw bytes for handle_client_data when there is no upstream)
+            s2 = P.mk_request(rng, method=b'GET')
+            raw = P.wire(s2)
+            cut = rng.randrange(1, len(raw))
+            steps.append(['client', raw[:cut], None])
+            steps.append(['client', raw[cut:], s2])
     return steps
 
 
@@ -294,8 +299,10 @@ def oracle(case, out):
     for g in groups:
         if g['hook'] == 'HCR' and rets.get(g['idx'][-1], ('value',))[0] == 'none':
             j = g['idx'][-1] + 1
-            if j < len(log) and log[j][0] == 'qup':
-                return 'a plugin returned None from handle_client_request but the request was forwarded'
+            while j < len(log) and log[j][0] not in ('step', 'call'):      # the rest of this handler step
+                if log[j][0] == 'qup':
+                    return 'a plugin returned None from handle_client_request but the request was forwarded'
+                j += 1
     # connect happens after the whole BUC chain and before the first HCR call
     ci = [i for i, e in enumerate(log) if e[0] == 'connect']
     if ci and not (buc['idx'][-1] < ci[0] and all(not (e[0] == 'call' and e[2] == 'HCR') for e in log[:ci[0]])):
